@@ -273,7 +273,7 @@ func (te *tableEngine) settleGame() []*TablePlayerState {
 	for _, player := range te.table.State.GameState.Result.Players {
 		playerIdx := te.table.State.GamePlayerIndexes[player.Idx]
 		playerState := te.table.State.PlayerStates[playerIdx]
-		playerState.Bankroll = player.Final
+		playerState.Bankroll += player.Changed
 
 		// 更新玩家攤牌勝率
 		p := te.table.State.GameState.GetPlayer(player.Idx)
